@@ -5,7 +5,8 @@ MCTags       == {"a", "b"}
 MCShapes     == {"none", "empty", "line1", "line3", "groups", "block1", "blockN", "mixed", "lead",
                  "apache", "bsdlist", "numbered", "heading", "indented", "dashlist", "blocklist", "trailsp",
                  "k8sblock", "blockslash", "blockbuild", "blocks2", "dneline", "dneblock", "othermarker", "nearmiss", "crlf", "bom",
-                 "manylines", "manyblock", "tmplline", "tmplnote", "tmplblock"}
+                 "manylines", "manyblock", "tmplline", "tmplnote", "tmplblock",
+                 "zs", "zlzp", "cf", "ctrl", "uniblock"}
 MCFormatters == {"goimports", "gofmt", "noop"}
 MCTemplates  == {"testify", "matryer"}
 MCPlacements == {"separate", "inpkg", "intest", "xtest"}   \* xtest: external test package (pkgname src_test) in the source directory
@@ -13,6 +14,7 @@ MCPathKinds  == {"abs", "rel"}          \* boilerplate-file given absolute / rel
 MCTdLevels   == {"pkg", "both", "root"}
 MCFsStates   == {"bare", "entries"}
 MCSpellings  == {"full", "min", "spaced"}
+MCSrcConstraints == SrcConsNames
 MCSizes      == {"4k", "64k", "1m"}
 MCSrcShapes  == {"one", "two", "empty"}         \* expression written fully parenthesised / with minimal parentheses
 =============================================================================
